@@ -95,7 +95,14 @@ func (w *World) Start(f int) (*Handle, error) {
 	return &Handle{Fork: f, Real: v, Model: m}, nil
 }
 
-func realBytes(st common.BeaconState) []byte {
+func realBytes(st common.BeaconState) (out []byte) {
+	defer func() {
+		// a state object that cannot even serialise itself (e.g. a view type that does not match its tree): the
+		// caller compares against the model's bytes and reports the difference
+		if r := recover(); r != nil {
+			out = []byte(fmt.Sprintf("<<state cannot be serialised: %v>>", r))
+		}
+	}()
 	var buf bytes.Buffer
 	if err := st.(interface {
 		Serialize(w *codec.EncodingWriter) error
@@ -795,6 +802,9 @@ func (w *World) Copy(h *Handle) (*Handle, error) {
 	st, err := h.Real.CopyState()
 	if err != nil {
 		return nil, err
+	}
+	if reflect.TypeOf(st) != reflect.TypeOf(h.Real) {
+		return nil, fmt.Errorf("CopyState of a %T returns a %T: the copy is a state of another fork's type", h.Real, st)
 	}
 	m, err := w.gens[h.Fork].Decode(w.gens[h.Fork].Encode(h.Model))
 	if err != nil {
